@@ -11,7 +11,9 @@ RULE = ("Hypothesis-generated expression models (trees over all 15 constructors,
         "generated finite points, as Point and as bare number, plus the same object evaluated at 2-4 points in a row; oracle = independent 50-digit mpmath "
         "interpreter with exact-Fraction track and running error bound.  Non-trivial = reference says "
         "DEFINED and in range AND (depth >= 4 or a shared non-leaf node or an n-ary arity not in {2,3} or "
-        "n >= 4 or a base other than e/2); distinct by SHA-1 of (canonical model, point).")
+        "n >= 4 or a base other than e/2); distinct by SHA-1 of (canonical model, point).  Part 'subnormal' (shared with C02): "
+        "+ - * / trees at coordinates k*2^e, e in [-1074,-1000], exact rational oracle, decided only when every exact "
+        "intermediate is exactly a double; non-trivial there = a non-zero subnormal denominator.")
 ASSUMPTIONS = [
     "mpmath at 50 digits is the real-arithmetic ground truth",
     "IEEE-754 double semantics of CPython on this platform; libm functions within a few ulp",
@@ -151,13 +153,25 @@ def make_exact(stats):
     return test
 
 
+def make_subnormal(stats):
+    """The bottom of the double range (2^-1074 .. 2^-1000): trees over + - * / whose every exact intermediate is exactly a
+    double (own exact rational evaluator, shared with C02): the value must be exactly that rational."""
+    from . import c02
+    return c02.make_tiny(stats, prop=ID)
+
+
 def parts(tier):
     n = 20000 if tier == "quick" else 400000
     return [hyp_part("general", make_general, int(n * 0.55)), hyp_part("exact", make_exact, int(n * 0.25)),
-            hyp_part("sequence", make_sequence, int(n * 0.15)), hyp_part("extreme", make_extreme, int(n * 0.1))]
+            hyp_part("sequence", make_sequence, int(n * 0.15)), hyp_part("extreme", make_extreme, int(n * 0.1)),
+            hyp_part("subnormal", make_subnormal, int(n * 0.1))]
 
 
 def replay(case):
+    if case.get("sub") == "subnormal":
+        from . import c02
+        c02.check_tiny(Stats(), case_model(case), case_point(case), prop=ID)
+        return
     if case.get("sub") == "sequence":
         check_sequence(Stats(), case_model(case), [M.point_from_json(p) for p in case["points"]])
         return
